@@ -158,6 +158,11 @@ func checkMain(args []string) int {
 		os.WriteFile(profilesTable, out, 0o644)
 	}
 
+	secondMax := 25
+	if *tier == "thorough" {
+		secondMax = 200
+	}
+
 	// build job runs
 	var runs []*jobRun
 	for _, j := range p.Jobs {
@@ -186,7 +191,7 @@ func checkMain(args []string) int {
 			}
 			spec := symx.JobSpec{Property: *prop, Name: j.Name, Repo: repo, Pkg: j.Pkg, Files: files, Entry: j.Entry, Solver: solver,
 				Params: ps, MaxPaths: j.MaxPaths, BudgetS: budget, KFOpen: kfOpenIDs, Must: j.Must,
-				GosymSrc: filepath.Join(root, "harness", "gosym", "gosym.go"), Samples: 40, Overrides: j.Overrides}
+				GosymSrc: filepath.Join(root, "harness", "gosym", "gosym.go"), Samples: 40, Overrides: j.Overrides, SecondMax: secondMax, Seed: seed}
 			if len(j.Extra) > 0 {
 				spec.Extra = map[string][]string{}
 				for dir, fs := range j.Extra {
@@ -715,6 +720,7 @@ func replayMain(args []string) int {
 
 func buildEvidence(prop, tier string, seed int, p regProp, runs []*jobRun, validated, nViol, nKF int, vioSamples []map[string]any, wall float64, infra bool, lines []string) map[string]any {
 	states, transitions, obligations, discharged, queries, sat, unsat, unknown, unkFeas := 0, 0, 0, 0, 0, 0, 0, 0, 0
+	secChecked, secAgreed, secNone := 0, 0, 0
 	solverS := 0.0
 	funcs := map[string]symx.FuncInfo{}
 	var jobs []map[string]any
@@ -734,6 +740,11 @@ func buildEvidence(prop, tier string, seed int, p regProp, runs []*jobRun, valid
 		unknown += r.res.Unknown
 		unkFeas += r.res.UnknownFeas
 		solverS += r.res.SolverS
+		if r.res.Second != nil {
+			secChecked += toInt(r.res.Second["rechecked"])
+			secAgreed += toInt(r.res.Second["agreed"])
+			secNone += toInt(r.res.Second["no_second_opinion"])
+		}
 		for _, f := range r.res.Funcs {
 			o := funcs[f.Name]
 			f.Calls += o.Calls
@@ -786,9 +797,20 @@ func buildEvidence(prop, tier string, seed int, p regProp, runs []*jobRun, valid
 		"solver_s": round2(solverS), "functions_encoded": fl, "jobs": jobs, "assertion_labels": labels, "reach_witnesses": reached,
 		"paths_aborted_outside_claim": aborted, "stubs_hit": stubsHit, "stubs": p.Stubs, "outside_claim": p.OutsideClaim,
 		"known_findings_hit": nKF, "messages": lines,
+		"second_solver": map[string]any{"assertion_queries_rechecked": secChecked, "agreed": secAgreed, "no_second_opinion": secNone, "policy": "a seeded sample of assertion queries per job is re-decided by a different solver (cvc5 <-> z3 5.1); a disagreement is INFRA, a timeout is 'no second opinion'"},
 	}
 	return map[string]any{"property_id": prop, "tier": tier, "seed": seed, "level": "model_checking", "coverage": cov,
 		"assumptions": p.Assumptions, "wall_s": round2(wall), "violations": nViol}
 }
 
 func round2(f float64) float64 { return float64(int(f*100)) / 100 }
+
+func toInt(v any) int {
+	switch x := v.(type) {
+	case float64:
+		return int(x)
+	case int:
+		return x
+	}
+	return 0
+}
